@@ -203,6 +203,14 @@ func dump(ctx *app.RequestContext) (string, int) {
 		}()
 		fmt.Fprintf(&sb, "\nlookup: clientip=%q formvalue(pf)=%q formvalue(pq)=%q", ctx.ClientIP(), ctx.FormValue("pf"), ctx.FormValue("pq"))
 	}()
+	// which header fields count as present: Peek gives nil for a field the request does not
+	// carry (that is how callers — the binder's "required" — tell absent from empty)
+	sb.WriteString("\npresent:")
+	for _, k := range []string{"User-Agent", "Content-Type", "Content-Length", "Host", "Cookie", "Trailer", "Connection", "X-Absent", "Accept"} {
+		if ctx.Request.Header.Peek(k) != nil {
+			sb.WriteString(" " + k)
+		}
+	}
 	return sb.String(), n
 }
 
